@@ -460,3 +460,40 @@ def gen_row_list_pair(rng, maxrows=7):
             r[rng.randrange(len(r))] = rng.randint(30, 39)
         b[j] = tuple(r)
     return a, b
+
+
+def reorder_dicts(rng, v):
+    """an equal value whose dicts were built in a shuffled insertion order (at every depth)"""
+    if isinstance(v, dict):
+        ks = list(v)
+        rng.shuffle(ks)
+        return {k: reorder_dicts(rng, v[k]) for k in ks}
+    if isinstance(v, list):
+        return [reorder_dicts(rng, x) for x in v]
+    if isinstance(v, tuple):
+        return tuple(reorder_dicts(rng, x) for x in v)
+    return v
+
+
+def gen_wide_dict_pair(rng, minkeys=4, maxkeys=8):
+    """two dicts with 4-8 common keys inserted in different orders; some values changed,
+    optionally a key added/removed"""
+    n = rng.randint(minkeys, maxkeys)
+    keys = rng.sample(["a", "b", "c", "d", "e", "f", "g", "h", "i", "j", 1, 2, 3, 4, 5, None, True], n)
+    # True == 1: keep keys pairwise != (Python's dict invariant does that for us)
+    t1 = {}
+    for k in keys:
+        t1[k] = gen_value(rng, depth=rng.choice([0, 0, 1, 2]), width=3)
+    t2 = {}
+    ks = list(t1)
+    rng.shuffle(ks)
+    nchg = rng.randint(0, 3)
+    chg = set(rng.sample(range(len(ks)), min(nchg, len(ks))))
+    for i, k in enumerate(ks):
+        t2[k] = edit(rng, t1[k])[0] if i in chg else reorder_dicts(rng, t1[k])
+    r = rng.random()
+    if r < 0.15:
+        t2["zz"] = gen_atom(rng)
+    elif r < 0.3:
+        del t2[rng.choice(list(t2))]
+    return t1, t2
